@@ -27,6 +27,10 @@ type emitter struct {
 	// pkg is the package that is currently being emitted.
 	pkg *ast.Package
 
+	// nonLocalAddresses maps the non-local variables of struct and array
+	// type to the expressions of their addresses.
+	nonLocalAddresses map[ast.Expression]ast.Expression
+
 	// typeInfos maps nodes to their type info.
 	// Should be accessed using method 'ti'.
 	typeInfos map[ast.Node]*typeInfo
